@@ -313,7 +313,15 @@ func (cs *ContractSet) ParseFile(path string, pkgPath string) {
 				fail("let needs name = expr")
 				continue
 			}
-			e, err := ParseExpr(strings.TrimSpace(kv[1]))
+			ltext := strings.TrimSpace(kv[1])
+			for pass := 0; pass < 6; pass++ {
+				nt := cs.expandMacros(ltext, 0)
+				if nt == ltext {
+					break
+				}
+				ltext = nt
+			}
+			e, err := ParseExpr(ltext)
 			if err != nil {
 				fail("%v", err)
 				continue
